@@ -1048,8 +1048,8 @@ def readspec(platein, mjd=None, fiber=None, **kwargs):
                 nper = spz[0].header['DIMS0']
                 zfiber = (thisfiber-1)*nper + kwargs['znum'] - 1
             else:
-                zfiber = thisfiber
-            tmp = spz[1].data[zfiber-1]
+                zfiber = thisfiber - 1
+            tmp = spz[1].data[zfiber]
             if 'zans' not in spplate_data:
                 spplate_data['zans'] = dict()
                 for c in spz[1].columns.names:
